@@ -82,6 +82,8 @@ pub struct Knobs {
     pub absorbing_virtuals: bool,
     /// `bits(0, e)` entries: no column, but e is evaluated (draws, errors) like any other entry
     pub zero_bits: bool,
+    /// a sum of literals whose spellings in different radices share their digits (10 = 0b10.. no: 2 = 0b10, 8 = 010, 10, 16 = 0x10)
+    pub twin_literals: bool,
 }
 
 impl Knobs {
@@ -115,6 +117,7 @@ impl Knobs {
             suffix_names: false,
             absorbing_virtuals: false,
             zero_bits: false,
+            twin_literals: false,
         }
     }
     /// flat-ish programs dominated by data rows
@@ -467,6 +470,20 @@ impl Gen {
         if !contains_row(&prog) {
             let id = self.row_id();
             prog.push(Stmt::Row { id, entries: self.entries(plan) });
+        }
+        // neighbouring literals that are spelt with the same digits in different radices (whatever was converted before, each
+        // literal has the value of its own digits in its own radix)
+        if self.k.twin_literals && self.rng.gen_bool(0.7) {
+            let fam: [i64; 4] = *[[2i64, 8, 10, 16], [3, 9, 11, 17], [4, 64, 100, 256], [5, 65, 101, 257], [7, 73, 111, 273]].choose(&mut self.rng).unwrap();
+            let mut v = fam.to_vec();
+            v.extend_from_slice(&fam);
+            v.shuffle(&mut self.rng);
+            let mut e = Expr::Num(v[0]);
+            for x in &v[1..] {
+                e = Expr::bin(*["+", "^", "|"].choose(&mut self.rng).unwrap(), e, Expr::Num(*x));
+            }
+            let at = self.rng.gen_range(0..=prog.len());
+            prog.insert(at, Stmt::Let { name: "tw".into(), e });
         }
         // a block of draws run twice, each time right after `resetRandom`: the second pass must repeat the draws of the first
         // (same bounds in the same order from the same restart point) whatever happened in between
